@@ -14,7 +14,7 @@ VARIABLES hist, needProbe, ncalls
 avars == <<vars, hist, needProbe, ncalls>>
 
 MCSplit == [f \in Funcs |-> SlotLen]
-MCNVals == {-1, 1}
+MCNVals == {-1, 1, 2}
 MCNValsT == {-1, 0, 1, 2}
 MCFuncSeq == <<"f1", "f2">>
 
